@@ -80,6 +80,24 @@ CHECKS = {
         "DESIGN.md §4 C10",
         TRUSTED + " One project layout with three module_path choices; patterns generated from names, not arbitrary regexes.",
     ),
+    "C07": (
+        "exhaustive enumeration of architectures x component sets x arrow relations x mode x naming; real DiagramRule on a written diagram file vs the conformance formula; aggregated message vs individually evaluated pairwise rules",
+        "For every architecture in the bounds, every set of 2-4 pairwise unrelated components, every arrow relation over them, both rule modes and both naming options, the diagram is written to a file and the real DiagramRule.assert_applies is compared with the conformance formula over descendant sets; on failure the aggregated message must consist of exactly the lines of the individually failing generated rules, and both naming options must agree.",
+        "DESIGN.md §4 C07",
+        TRUSTED + " Diagrams are written in the canonical textual form; parsing variants are C06's business.",
+    ),
+    "C08": (
+        "exhaustive string-space enumeration for the glob->regex conversion; exhaustive enumeration of small directory trees x exclusion tuples with real scans vs model and vs the unfiltered scan",
+        "(a) every glob pattern over a 6-symbol alphabet up to the length bound x every subject string up to length 4 is converted with the real converter and matched with re.match against the literal glob model; (b) every directory tree with up to N entries (prefix-colliding and metacharacter names) and feature trees x every exclusion tuple built from the entries in all glob and regex shapes is scanned with the real entry point and compared with the model and with the unfiltered real scan restricted to the survivors.",
+        "DESIGN.md §4 C08",
+        TRUSTED + " Import statements in these trees are plain absolute imports so that resolution does not depend on the survivors.",
+    ),
+    "C09": (
+        "exhaustive enumeration of architectures x level limits: limited graph vs model quotient, verdict preservation over the antichain rule space; real scans with level_limit vs quotient of the unlimited real scan",
+        "For every architecture in the bounds and every level limit k the graph built by the real constructor with level_limit=k is compared node-by-node and edge-by-edge with the model quotient, and every eligible rule of the antichain rule space is evaluated on both; real project trees are scanned with every module_path and every k and compared with the quotient of the unlimited scan (k counted from module_path).",
+        "DESIGN.md §4 C09",
+        TRUSTED + " Verdict preservation only for pairwise unrelated subject/object identifiers, as the property states.",
+    ),
 }
 
 PENDING = {}
